@@ -239,6 +239,124 @@ def chunkings(rng, n):
     return res
 
 
+MAGICS = [b"stats\r\n", b"stats\n", b"get stats\r\n", b"version\r\n"]
+
+
+def gen_malformed(rng):
+    """a reader-only case: valid frames, then one malformed element; returns (line, packets that must be delivered
+    before the error or None when nothing is claimed)"""
+    n0 = rng.choice([0, 0, 1, 2, 2, 3, 7, 2**32 + 1, rng.below(1000)])
+    proto = rng.choice([0, 1, 2])
+    crcc = rng.chance(1, 2)
+    stream = b""
+    exp = []
+    n = n0
+    for _ in range(rng.below(3)):
+        l = 4 * rng.below(12) if proto == 0 else rng.below(40)
+        tip = NONCE if n == 0 else HS if n == 1 else (rng.below(2**32) | 1) ^ (PING & 0)  # avoid ping/pong below
+        if tip in (PING, PONG):
+            tip ^= 4
+        body = rng.bytes(l)
+        if n > 0:
+            stream += le32(4) * rng.choice([0, 0, 0, 1, 2, 3])
+        stream += frame(n, tip, body, crcc, False)
+        exp.append((tip, body))
+        n += 1
+    l = 4 * rng.below(12) if proto == 0 else rng.below(40)
+    tip = NONCE if n == 0 else HS if n == 1 else rng.below(2**32)
+    if tip in (PING, PONG):
+        tip ^= 4
+    body = rng.bytes(l)
+    k = rng.below(16)
+    claim = True
+    if k == 0:
+        bad = frame(n, tip, body, crcc, False, badcrc=rng.range(1, 2**32 - 1))
+    elif k == 1:
+        bad = frame(n, tip, body, crcc, False, seq=(n - 2 + rng.range(1, 2**32 - 1)) & 0xFFFFFFFF)
+    elif k == 2:
+        bad = frame(n, tip, body, crcc, False, length=rng.choice([0, 1, 2, 3, 5, 8, 12, 15]))
+    elif k == 3:
+        bad = frame(n, tip, body, crcc, False, length=rng.choice([MAXLEN + 1, 2**24, 2**31, 2**32 - 1, 2**32 - 4]))
+    elif k == 4:
+        bad = le32(4) * rng.choice([4, 5, 8]) + frame(n, tip, body, crcc, False)
+        claim = n > 0
+    elif k == 5:
+        f = frame(n, tip, body, crcc, False)
+        bad = f[:rng.below(len(f))]
+        claim = False  # truncation on a boundary of padding may be a clean EOF
+    elif k == 6:
+        bad = frame(n, tip ^ 0x10, body, crcc, False) if n < 2 else frame(n, PONG, rng.bytes(8), crcc, False)
+    elif k == 7:
+        bad = frame(n, PING, rng.bytes(rng.choice([0, 4, 12])), crcc, False)
+        claim = n >= 2
+    elif k == 8:
+        bad = frame(n, tip, rng.bytes(1024 - 16 + 4 * rng.below(4)), crcc, False)
+        claim = n < 2
+    elif k == 9:
+        bad = frame(n, tip, rng.bytes(4 * rng.below(8) + rng.range(1, 3)), crcc, False)
+        claim = proto == 0
+    elif k == 10:
+        bad = rng.choice(MAGICS) + rng.bytes(rng.below(20))
+        claim = False
+    elif k == 11:
+        bad = rng.bytes(rng.below(40))
+        claim = False
+    elif k == 12:
+        bad = frame(n, tip, body, not crcc, False)  # the other CRC table
+    elif k == 13:
+        bad = le32(4) + frame(n, tip, body, crcc, False)[:rng.below(12)]
+        claim = False
+    elif k == 14:
+        bad = frame(n + 1, tip, body, crcc, False)
+    else:
+        bad = frame(n, tip, body, crcc, False, length=4) + rng.bytes(8)
+        claim = False
+    stream += bad
+    if rng.chance(1, 2):
+        stream += frame(n + 1, 5, b"", crcc, False)
+    if n0 == 0 and k in (10,) and not exp:
+        chunks = [rng.choice([6, 7, 9, 11, 12, 5, 3])]
+    else:
+        chunks = chunkings(rng, 1)[0]
+    line = "packet.read %d:%d:%d - %s %s %d" % (n0, proto, 1 if crcc else 0, hx(stream), ",".join(map(str, chunks)),
+                                                 rng.choice([12, 16, 17, 64, 4096]))
+    return line, (exp if claim else None)
+
+
+def gen_raw_enc(rng):
+    """plaintext-level malformations inside an AES-CBC stream (raw test hook of the writer)"""
+    n0 = rng.choice([2, 3, 9])
+    s = Script(n0, rng.choice([0, 1, 2]), rng.chance(1, 2))
+    s.encrypt(rng.bytes(32), rng.bytes(16))
+    for _ in range(rng.below(3)):
+        l = 4 * rng.below(10) if s.proto == 0 else rng.below(30)
+        s.write(rng.below(2**32) | 0x100, rng.bytes(l), rng.choice(["w", "n"]))
+    exp = [(t, b) for (_, t, b) in s.written]
+    l = rng.below(30)
+    if s.proto == 0:
+        l -= l % 4
+    body = rng.bytes(l)
+    k = rng.below(5)
+    if k == 0 and l % 4:
+        bad = frame(s.n, 99, body, s.crcc, True, badalign=rng.range(1, 255))
+    elif k == 1:
+        bad = le32(4) * rng.choice([4, 5, 7]) + frame(s.n, 99, body, s.crcc, True)
+    elif k == 2:
+        bad = frame(s.n, 99, body, s.crcc, True, badcrc=1 << rng.below(32))
+    elif k == 3:
+        bad = frame(s.n, 99, body, s.crcc, True, seq=s.n)
+    else:
+        bad = frame(s.n, 99, body, s.crcc, True)[:-4] + rng.bytes(3) + bytes([rng.range(0, 255)])
+        if bad == frame(s.n, 99, body, s.crcc, True):
+            bad = bad[:-1] + bytes([bad[-1] ^ 1])
+        if len(frame(s.n, 99, body, s.crcc, True)) - 4 < 16 + l:  # we overwrote CRC bytes, still invalid
+            pass
+    bad += bytes(-len(bad) % 4)
+    s.rawbytes(bad)
+    s.final()
+    return s, exp
+
+
 BUFS = [1, 2, 7, 12, 16, 17, 31, 64, 100, 4096, 65536]
 
 
@@ -363,10 +481,59 @@ def run(c):
         if len(outs) > 1:
             ls = [l for l in lines if l in meta and meta[l][1] == g and meta[l][2] is None]
             c.oracle_fail(ls[0], "result of reading depends on the segmentation of the byte stream / buffer sizes", ls[0])
+    # ---- phase C: malformed streams (reader only), plaintext-level malformations under AES-CBC, length validation
+    lines2 = []
+    claims = {}
+    for _ in range(4000 if c.thorough else 700):
+        ln, exp = gen_malformed(rng)
+        if ln not in claims:
+            claims[ln] = exp
+            lines2.append(ln)
+    res2 = c.tie("read", lines2, impl, model)
+    for l, a, _ in res2:
+        if not a.startswith("r="):
+            c.oracle_fail(l, "reader-only case not executed: " + a[:60], l)
+            continue
+        evs = a.split(" ")[0][2:].split(",")
+        pk = [(int(x.split(":")[1], 16), unhex(x.split(":")[2])) for x in evs[:-1]]
+        c.count("read-final:" + evs[-1][2:])
+        exp = claims[l]
+        if exp is not None and (pk != exp or evs[-1] == "e:eof"):
+            c.oracle_fail(l, "malformed packet: delivered %d packets (expected the %d valid ones before it), final %s" % (
+                len(pk), len(exp), evs[-1]), l)
+    lines3 = []
+    claims3 = {}
+    for _ in range(800 if c.thorough else 150):
+        s3, exp = gen_raw_enc(rng)
+        ln = conn_line(s3, chunkings(rng, 1)[0], "-", rng.choice(BUFS), rng.choice(BUFS))
+        if ln not in claims3:
+            claims3[ln] = exp
+            lines3.append(ln)
+    res3 = c.tie("raw", lines3, impl, model)
+    for l, a, _ in res3:
+        p = parse_conn_out(a)
+        if p is None:
+            c.oracle_fail(l, "raw case not executed: " + a[:60], l)
+            continue
+        if p[2] != claims3[l] or p[3] == "eof":
+            c.oracle_fail(l, "malformed plaintext inside the encrypted stream: %d packets delivered, final %s" % (len(p[2]), p[3]), l)
+    lines4 = []
+    for pr in (0, 1, 2):
+        for ln_ in list(range(0, 40)) + [MAXLEN - OVERHEAD - d for d in range(-6, 7)] + [2**24, 2**31 - 1, 2**31, 2**32, 2**40] + \
+                [rng.below(2**25) for _ in range(40)]:
+            if ln_ >= 0:
+                lines4.append("packet.wlen %d %d" % (pr, ln_))
+    res4 = c.tie("wlen", lines4, impl, model)
+    for l, a, _ in res4:
+        pr, ln_ = int(l.split(" ")[1]), int(l.split(" ")[2])
+        want = "err large" if ln_ > MAXLEN - OVERHEAD else "err size4" if (pr == 0 and ln_ % 4) else "ok"
+        if a != want:
+            c.oracle_fail(l, "body length %d (protocol %d): writer says %s" % (ln_, pr, a), l)
     c.extra["rule"] = ("lines: %d random connection histories (handshake-shaped from seq -2 or injected state incl. seq wrap-around, "
                        "protocol 0/1/2, both CRC tables, AES-CBC on/off, WritePacket/NoFlush/WritePacket2/Flush mixes, ping/pong) x chunkings x "
                        "buffer sizes; %d short histories x every wire offset x single-byte xor and truncation; distinct = distinct line text; "
-                       "every line is a different input" % (nscripts, ncor))
+                       "reader-only malformed streams (bad crc/seq/length/type, excess padding, memcached commands, truncation, random), "
+                       "plaintext-level malformations under AES-CBC, body-length validation; every line is a different input" % (nscripts, ncor))
 
 
 def c_root():
